@@ -123,6 +123,21 @@ Theorem parse_render_stmt : forall X F, UnicodeSane X -> forall tbl st L s g r,
         (add_pats (stmt_pats tbl st) (st_after s (stext tbl L st ++ render_gap g) r)).
 Proof. intros X F HS tbl st L s g r. apply parse_render_stmt_lemma. exact HS. Qed.
 
+(* the text field of a `node` statement (`SNode v t l`: the Display text of the variable, which the interpreters write into the
+   debug attribute "variable name"; the real AST has no such field, the dump fills it with format!("{}", node)): the parser
+   model returns display_variable v (Model/VarDisplay.v; <str as Debug> on non-ASCII characters is the external table
+   x_print), `sloc` keeps the field of the written AST, and WfStmt demands that it IS that text - so parse_render_stmt /
+   _block / _file state the round trip of this field as well (stream C07 compares it).  For every accepted text:
+   Props/C20disp.v parsed_node_text. *)
+Theorem wf_node_text : forall X tbl v t l,
+  WfStmt X tbl (SNode v t l) <-> WfVar X v /\ t = display_variable (dpenv_of (x_print X)) v.
+Proof. intros. reflexivity. Qed.
+Theorem sloc_node_text : forall X tbl L p k v t l, WfStmt X tbl (SNode v t l) ->
+  exists v', sloc tbl L p k (SNode v t l) = SNode v' (display_variable (dpenv_of (x_print X)) v') p.
+Proof.
+  intros X tbl L p k v t l [_ ->]. cbn [sloc]. eexists. rewrite display_variable_vloc. reflexivity.
+Qed.
+
 Theorem parse_render_block : forall X F, UnicodeSane X -> forall tbl l L s r,
   wf_stmts X tbl l -> WfLayout X L ->
   p_rest s = block_text tbl L l ++ r -> (len s < F)%nat ->
